@@ -42,7 +42,9 @@ def lattice(tier):
     nss = [1, 3] if tier == 'quick' else [1, 2, 3]
     out = []
     for ns_, opn, msgn, hd, flt, pt, nn, style, proto in itertools.product(nserv, (False, True), (False, True), hdrs, ('none', 'one', 'shared'),
-                                                                         (False, True), nss, ('wrapped', 'bare', 'out_bare'), ('soap11', 'soap12')):
+                                                                         (False, True, 'first', 'last'), nss, ('wrapped', 'bare', 'out_bare'), ('soap11', 'soap12')):
+        if pt in ('first', 'last') and ns_ < 2:
+            continue      # (port types on the first / on the last service only: needs two services)
         out.append(dict(nserv=ns_, opname=opn, msgnames=msgn, headers=hd, faults=flt, port_types=pt, namespaces=nn, style=style, proto=proto))
     return out
 
@@ -90,7 +92,7 @@ def lattice_program(f):
         if f['faults'] == 'shared':
             b['throws'] = ['F1']
         s = {'n': 'S%d' % si, 'methods': [a, b]}
-        if f['port_types']:
+        if f['port_types'] is True or (f['port_types'] == 'first' and si == 0) or (f['port_types'] == 'last' and si == f['nserv'] - 1):
             s['port_types'] = ['PT%d' % si]
             a['kw']['_port_type'] = 'PT%d' % si
             b['kw']['_port_type'] = 'PT%d' % si
@@ -448,7 +450,10 @@ def run_shard(shard, only=None):
                     V('nondeterministic-in-process', '', 'two builds of the same application differ')
                 m = program['services'][0]['methods'][0]
                 for args in argcases:
-                    zeep_calls(program, b, app, w, proto, res, V, {m['n']: (args, args[0], None)})
+                    if isinstance(args, dict):
+                        zeep_calls(program, b, app, w, proto, res, V, {m['n']: (args['args'], args['ret'], None)})
+                    else:
+                        zeep_calls(program, b, app, w, proto, res, V, {m['n']: (args, args[0], None)})
                 res['nontrivial'] += 1
     elif shard['kind'] == 'det':
         # fresh interpreter with the given hash seed builds every lattice application; digests must equal ours
